@@ -25,8 +25,8 @@ def check(ctx, prop):
         raise Machinery("TLC failed on TLSHandshakeMC[%s]:\n%s" % (prop, "\n".join(r.out.splitlines()[-30:])))
     if r.distinct < 500:
         raise Machinery("TLSHandshakeMC[%s]: only %d states - model not exercised" % (prop, r.distinct))
-    if ctx.quick and prop not in ("C24", "C32"):
-        return      # liveness of the machine is checked by the quick tiers of C24 / C32 and by every thorough tier
+    if ctx.quick and prop != "C32":
+        return      # liveness of the machine is checked by the quick tier of C32 and by every thorough tier
     r2 = ctx.tlc("TLSHandshakeMC", "TLSHandshake_live.cfg", subst={"MODE": prop, "ADV": live},
                  timeout=3000, expect_ok=False, label="TLSHandshakeMC liveness[%s, adversary budget %d]" % (prop, live))
     if r2.violated:
